@@ -14,6 +14,9 @@ pub enum Step {
     Interrupted,
     /// Writer only: return Ok(0) for this call.
     Zero,
+    /// Return Err(WouldBlock) for this call, consuming nothing; later calls proceed (a non-blocking
+    /// descriptor that is momentarily not ready, a timeout that clears).
+    Transient,
 }
 
 #[derive(Clone, Debug, PartialEq, Eq, Default)]
@@ -39,6 +42,7 @@ impl Script {
                 Step::Limit(n) => json!(n),
                 Step::Interrupted => json!("EINTR"),
                 Step::Zero => json!("ZERO"),
+                Step::Transient => json!("EAGAIN"),
             })
             .collect();
         json!({"steps": steps, "cycle": self.cycle, "fail_at": self.fail_at, "eof_at": self.eof_at})
@@ -52,6 +56,7 @@ impl Script {
                 match s.as_str()? {
                     "EINTR" => steps.push(Step::Interrupted),
                     "ZERO" => steps.push(Step::Zero),
+                    "EAGAIN" => steps.push(Step::Transient),
                     _ => return None,
                 }
             }
@@ -91,6 +96,20 @@ impl Script {
         Script { steps, cycle: style >= 2 && rng.chance(3, 4), fail_at: None, eof_at: None }
     }
 
+    /// As `draw`, and in half of the scripts one or two calls fail with a transient WouldBlock.
+    /// (Kept out of `draw`: the C14 / C18 transports only use behaviours under which a transfer
+    /// must succeed.)
+    pub fn draw_with_transient(rng: &mut Prng, zero: bool) -> Self {
+        let mut s = Script::draw(rng, zero);
+        if rng.coin() {
+            for _ in 0..rng.range(1, 2) {
+                let at = rng.usize_below(s.steps.len() + 1);
+                s.steps.insert(at, Step::Transient);
+            }
+        }
+        s
+    }
+
     fn next(&self, call: usize) -> Step {
         if self.steps.is_empty() {
             return Step::Limit(0);
@@ -119,6 +138,7 @@ pub struct Fired {
     pub zero: usize,
     pub hard_error: usize,
     pub eof: usize,
+    pub transient: usize,
 }
 
 pub struct FaultyWriter {
@@ -155,6 +175,10 @@ impl Write for FaultyWriter {
             Step::Zero => {
                 self.fired.zero += 1;
                 Ok(0)
+            }
+            Step::Transient => {
+                self.fired.transient += 1;
+                Err(io::Error::new(io::ErrorKind::WouldBlock, "simulated EAGAIN"))
             }
             Step::Limit(m) => {
                 let mut n = buf.len();
@@ -214,6 +238,10 @@ impl<'a> Read for FaultyReader<'a> {
             Step::Interrupted => {
                 self.fired.interrupted += 1;
                 Err(io::Error::new(io::ErrorKind::Interrupted, "simulated EINTR"))
+            }
+            Step::Transient => {
+                self.fired.transient += 1;
+                Err(io::Error::new(io::ErrorKind::WouldBlock, "simulated EAGAIN"))
             }
             Step::Zero | Step::Limit(_) => {
                 let m = if let Step::Limit(m) = step { m } else { 0 };
